@@ -362,6 +362,11 @@ def order_hint(topo, op):
         if kind == 'remove_component':
             n = Resolver(topo).elem(['node', a[0]])
             return flat(n.components[a[1]].interface_list)
+        if kind == 'remove_ns':
+            return flat(topo.network_services[a[0]].interface_list)
+        if kind == 'node_remove_ns':
+            n = Resolver(topo).elem(['node', a[0]])
+            return flat(n.network_services[a[1]].interface_list)
     except Exception:
         pass
     return []
